@@ -117,3 +117,193 @@ Proof.
   rewrite nth_error_app2 by lia. replace (length pre + k - length pre) with k by lia.
   rewrite nth_error_app1; [assumption|]. apply nth_error_Some. congruence.
 Qed.
+
+(* ------------------------------------------------------------------ what a piece of code does *)
+(* value context: from (p, stk) to (p', v :: stk) *)
+Definition post_val (code : list instr) (rho : env) (v : val) (fuel p : nat) (stk : list val) (p' : nat) : Prop :=
+  exists f', steps code rho (fuel, p, stk) (f', p', v :: stk).
+
+(* condition context: if the truth value b equals c, control goes to `next` (the loop top = the element is skipped),
+   otherwise it falls through to pend; the stack is stk1 afterwards *)
+Definition post_cond (code : list instr) (rho : env) (b c : bool) (next : tgt) (fuel p : nat) (stk0 stk1 : list val) (pend : nat) : Prop :=
+  if Bool.eqb b c then
+    match next with
+    | TAt t => exists f', steps code rho (fuel, p, stk0) (f', t, stk1)
+    | TTop => exec fuel rho code p stk0 = OSkip
+    end
+  else exists f', steps code rho (fuel, p, stk0) (f', pend, stk1).
+
+Lemma post_cond_pre : forall code rho b c next f p s f1 p1 s1 stk1 pend,
+  steps code rho (f, p, s) (f1, p1, s1) -> post_cond code rho b c next f1 p1 s1 stk1 pend -> post_cond code rho b c next f p s stk1 pend.
+Proof.
+  intros code rho b c next f p s f1 p1 s1 stk1 pend Hs Hp. unfold post_cond in *.
+  destruct (Bool.eqb b c).
+  - destruct next as [|t].
+    + destruct Hs as [_ E]. rewrite E. assumption.
+    + destruct Hp as [f' Hp]. exists f'. eapply steps_trans; eassumption.
+  - destruct Hp as [f' Hp]. exists f'. eapply steps_trans; eassumption.
+Qed.
+
+Lemma post_val_pre : forall code rho v f p s f1 p1 p',
+  steps code rho (f, p, s) (f1, p1, s) -> post_val code rho v f1 p1 s p' -> post_val code rho v f p s p'.
+Proof. intros code rho v f p s f1 p1 p' Hs [f' Hp]. exists f'. eapply steps_trans; eassumption. Qed.
+
+(* the conditional jump at the end of a condition *)
+Lemma step_jump : forall code rho q c next v stk f,
+  instr_at code q (jump_to c next) -> length code + 3 <= f + q -> (forall t, next = TAt t -> q < t) ->
+  post_cond code rho (truthy v) c next f q (v :: stk) stk (S q).
+Proof.
+  intros code rho q c next v stk f Hat Hf Hfw. destruct (fuel_pos _ _ _ _ Hat Hf) as [f0 ->].
+  unfold post_cond, steps. 
+  destruct next as [|t]; cbn [jump_to] in *.
+  - destruct (Bool.eqb (truthy v) c) eqn:E.
+    + rewrite (exec_unfold f0 rho code q (v :: stk) _ Hat), E. reflexivity.
+    + exists f0. rewrite (exec_unfold f0 rho code q (v :: stk) _ Hat), E. split; [lia|reflexivity].
+  - specialize (Hfw t eq_refl). destruct (Bool.eqb (truthy v) c) eqn:E; exists f0;
+      rewrite (exec_unfold f0 rho code q (v :: stk) _ Hat), E; (split; [lia|reflexivity]).
+Qed.
+
+Lemma step_jump_none : forall code rho q c next v stk f,
+  instr_at code q (jump_none_to c next) -> length code + 3 <= f + q -> (forall t, next = TAt t -> q < t) ->
+  post_cond code rho (val_eqb v VNone) c next f q (v :: stk) stk (S q).
+Proof.
+  intros code rho q c next v stk f Hat Hf Hfw. destruct (fuel_pos _ _ _ _ Hat Hf) as [f0 ->].
+  unfold post_cond, steps.
+  destruct next as [|t]; cbn [jump_none_to] in *.
+  - destruct (Bool.eqb (val_eqb v VNone) c) eqn:E.
+    + rewrite (exec_unfold f0 rho code q (v :: stk) _ Hat), E. reflexivity.
+    + exists f0. rewrite (exec_unfold f0 rho code q (v :: stk) _ Hat), E. split; [lia|reflexivity].
+  - specialize (Hfw t eq_refl). destruct (Bool.eqb (val_eqb v VNone) c) eqn:E; exists f0;
+      rewrite (exec_unfold f0 rho code q (v :: stk) _ Hat), E; (split; [lia|reflexivity]).
+Qed.
+
+Lemma truthy_of_bool : forall b, truthy (of_bool b) = b.
+Proof. intros []; reflexivity. Qed.
+
+(* ------------------------------------------------------------------ the statement proved by induction on the expression *)
+Definition sound_at (e : bexp) : Prop :=
+  forall cnd code pre suf next c rho stk fuel,
+  has_ifexp e = false ->
+  code = pre ++ comp cnd e (pos_of (length pre)) next c ++ suf ->
+  length code + 3 <= fuel + pos_of (length pre) ->
+  (forall t, next = TAt t -> pos_of (length pre) + elen cnd e <= t) ->
+  if cnd then post_cond code rho (truthy (eval rho e)) c next fuel (pos_of (length pre)) stk stk (pos_of (length pre) + elen true e)
+  else post_val code rho (eval rho e) fuel (pos_of (length pre)) stk (pos_of (length pre) + elen false e).
+
+(* value-context use of an induction hypothesis, with the code re-associated by the caller *)
+Lemma use_val : forall e code pre suf next c rho stk fuel,
+  sound_at e -> has_ifexp e = false ->
+  code = pre ++ comp false e (pos_of (length pre)) next c ++ suf ->
+  length code + 3 <= fuel + pos_of (length pre) ->
+  post_val code rho (eval rho e) fuel (pos_of (length pre)) stk (pos_of (length pre) + elen false e).
+Proof.
+  intros e code pre suf next c rho stk fuel H Hi Hc Hf.
+  (* in value context `next` is not used by comp; any forward target will do *)
+  assert (Hirr : forall n1 c1 n2 c2 p, comp false e p n1 c1 = comp false e p n2 c2).
+  { clear. induction e as [n|v|e IH|l IH|l IH|t a b IHt IHa IHb|ne a b IHa IHb|neg e IH] using bexp_ind2; intros n1 c1 n2 c2 p;
+      try reflexivity.
+    - cbn [comp]. destruct e; try (rewrite (IH n1 c1 n2 c2 p); reflexivity).
+      specialize (IH n1 c1 n2 c2 p). cbn [comp] in IH. apply app_inv_tail in IH. rewrite IH. reflexivity.
+    - rewrite !comp_And. generalize (TAt (p + elen false (And l))). intro n0. revert p.
+      induction l as [|x r IHl]; intro p; [reflexivity|]. inversion IH as [|? ? Px Pr]; subst.
+      destruct r as [|y s]; [cbn [comp_and]; apply Px|].
+      rewrite !comp_and_cons2f, (Px n1 c1 n2 c2 p), (IHl Pr). reflexivity.
+    - rewrite !comp_Or. generalize (TAt (p + elen false (Or l))). intro n0. revert p.
+      induction l as [|x r IHl]; intro p; [reflexivity|]. inversion IH as [|? ? Px Pr]; subst.
+      destruct r as [|y s]; [cbn [comp_or]; apply Px|].
+      rewrite !comp_or_cons2f, (Px n1 c1 n2 c2 p), (IHl Pr). reflexivity.
+    - cbn [comp]. rewrite (IHa n1 c1 n2 c2), (IHb n1 c1 n2 c2). reflexivity.
+    - cbn [comp]. rewrite (IHa n1 c1 n2 c2), (IHb n1 c1 n2 c2). reflexivity.
+    - cbn [comp]. rewrite (IH n1 c1 n2 c2). reflexivity. }
+  rewrite (Hirr next c TTop false) in Hc.
+  apply (H false code pre suf TTop false rho stk fuel Hi Hc Hf). intros t Ht. discriminate Ht.
+Qed.
+
+(* ------------------------------------------------------------------ and / or over a list of operands *)
+Lemma has_ifexp_And : forall l, has_ifexp (And l) = existsb has_ifexp l.
+Proof. intro l. cbn [has_ifexp]. induction l as [|x r IH]; [reflexivity|]. cbn [existsb]. rewrite <- IH. reflexivity. Qed.
+Lemma has_ifexp_Or : forall l, has_ifexp (Or l) = existsb has_ifexp l.
+Proof. intro l. cbn [has_ifexp]. induction l as [|x r IH]; [reflexivity|]. cbn [existsb]. rewrite <- IH. reflexivity. Qed.
+
+Lemma pos_of_app : forall (pre seg : list instr), pos_of (length (pre ++ seg)) = pos_of (length pre) + length seg.
+Proof. intros. rewrite app_length. unfold pos_of. lia. Qed.
+
+Lemma and_cond_list : forall l, Forall sound_at l -> l <> [] ->
+  forall code pre suf next next2 c rho stk fuel pend,
+  existsb has_ifexp l = false ->
+  code = pre ++ comp_and true next next2 c l (pos_of (length pre)) ++ suf ->
+  length code + 3 <= fuel + pos_of (length pre) ->
+  pend = pos_of (length pre) + elen_list true l ->
+  next2 = (if c then TAt pend else next) ->
+  (forall t, next = TAt t -> pend <= t) ->
+  post_cond code rho (truthy (eval_and rho l)) c next fuel (pos_of (length pre)) stk stk pend.
+Proof.
+  induction l as [|x r IHl]; intros HF Hne code pre suf next next2 c rho stk fuel pend Hif Hcode Hfuel Hpend Hn2 Hfw; [congruence|].
+  inversion HF as [|? ? Hx Hr]; subst x0 l.
+  cbn [existsb] in Hif. apply orb_false_iff in Hif. destruct Hif as [Hifx Hifr].
+  destruct r as [|y s].
+  - cbn [comp_and elen_list eval_and] in *. subst pend.
+    apply (Hx true code pre suf next c rho stk fuel Hifx Hcode Hfuel). intros t Ht. apply Hfw. assumption.
+  - rewrite comp_and_cons2, <- app_assoc in Hcode. rewrite elen_list_cons2' in Hpend.
+    set (p := pos_of (length pre)) in *.
+    assert (Hx' := Hx true code pre (comp_and true next next2 c (y :: s) (p + elen true x) ++ suf) next2 false rho stk fuel Hifx Hcode Hfuel).
+    assert (Hfw2 : forall t, next2 = TAt t -> p + elen true x <= t).
+    { intros t Ht. subst next2. destruct c; [injection Ht as <-; lia | apply Hfw in Ht; lia]. }
+    specialize (Hx' Hfw2). fold p in Hx'. cbn [eval_and]. unfold post_cond in Hx'.
+    destruct (truthy (eval rho x)) eqn:Etx; cbn [Bool.eqb] in Hx'.
+    + (* x is true: fall through to the remaining operands *)
+      destruct Hx' as [f1 Hs1]. eapply post_cond_pre; [exact Hs1|].
+      assert (Hcode2 : code = (pre ++ comp true x p next2 false) ++ comp_and true next next2 c (y :: s) (p + elen true x) ++ suf)
+        by (rewrite <- app_assoc; exact Hcode).
+      assert (Hp2 : pos_of (length (pre ++ comp true x p next2 false)) = p + elen true x) by (rewrite pos_of_app, length_comp; reflexivity).
+      rewrite <- Hp2 in Hcode2 |- *.
+      apply (IHl Hr ltac:(discriminate) code _ suf next next2 c rho stk f1 pend Hifr Hcode2).
+      * destruct Hs1 as [H _]. rewrite Hp2. exact H.
+      * rewrite Hp2. lia.
+      * assumption.
+      * assumption.
+    + (* x is false: the whole `and` is false *)
+      unfold post_cond. subst next2. destruct c; cbn [Bool.eqb].
+      * destruct Hx' as [f1 Hs1]. exists f1. exact Hs1.
+      * exact Hx'.
+Qed.
+
+Lemma or_cond_list : forall l, Forall sound_at l -> l <> [] ->
+  forall code pre suf next next2 c rho stk fuel pend,
+  existsb has_ifexp l = false ->
+  code = pre ++ comp_or true next next2 c l (pos_of (length pre)) ++ suf ->
+  length code + 3 <= fuel + pos_of (length pre) ->
+  pend = pos_of (length pre) + elen_list true l ->
+  next2 = (if c then next else TAt pend) ->
+  (forall t, next = TAt t -> pend <= t) ->
+  post_cond code rho (truthy (eval_or rho l)) c next fuel (pos_of (length pre)) stk stk pend.
+Proof.
+  induction l as [|x r IHl]; intros HF Hne code pre suf next next2 c rho stk fuel pend Hif Hcode Hfuel Hpend Hn2 Hfw; [congruence|].
+  inversion HF as [|? ? Hx Hr]; subst x0 l.
+  cbn [existsb] in Hif. apply orb_false_iff in Hif. destruct Hif as [Hifx Hifr].
+  destruct r as [|y s].
+  - cbn [comp_or elen_list eval_or] in *. subst pend.
+    apply (Hx true code pre suf next c rho stk fuel Hifx Hcode Hfuel). intros t Ht. apply Hfw. assumption.
+  - rewrite comp_or_cons2, <- app_assoc in Hcode. rewrite elen_list_cons2' in Hpend.
+    set (p := pos_of (length pre)) in *.
+    assert (Hx' := Hx true code pre (comp_or true next next2 c (y :: s) (p + elen true x) ++ suf) next2 true rho stk fuel Hifx Hcode Hfuel).
+    assert (Hfw2 : forall t, next2 = TAt t -> p + elen true x <= t).
+    { intros t Ht. subst next2. destruct c; [apply Hfw in Ht; lia | injection Ht as <-; lia]. }
+    specialize (Hx' Hfw2). fold p in Hx'. cbn [eval_or]. unfold post_cond in Hx'.
+    destruct (truthy (eval rho x)) eqn:Etx; cbn [Bool.eqb] in Hx'.
+    + (* x is true: the whole `or` is true *)
+      unfold post_cond. rewrite Etx. subst next2. destruct c; cbn [Bool.eqb].
+      * exact Hx'.
+      * destruct Hx' as [f1 Hs1]. exists f1. exact Hs1.
+    + (* x is false: go on *)
+      destruct Hx' as [f1 Hs1]. eapply post_cond_pre; [exact Hs1|].
+      assert (Hcode2 : code = (pre ++ comp true x p next2 true) ++ comp_or true next next2 c (y :: s) (p + elen true x) ++ suf)
+        by (rewrite <- app_assoc; exact Hcode).
+      assert (Hp2 : pos_of (length (pre ++ comp true x p next2 true)) = p + elen true x) by (rewrite pos_of_app, length_comp; reflexivity).
+      rewrite <- Hp2 in Hcode2 |- *.
+      apply (IHl Hr ltac:(discriminate) code _ suf next next2 c rho stk f1 pend Hifr Hcode2).
+      * destruct Hs1 as [H _]. rewrite Hp2. exact H.
+      * rewrite Hp2. lia.
+      * assumption.
+      * assumption.
+Qed.
